@@ -224,10 +224,31 @@ def print_assumptions(ctx, pid, names):
     return res, out
 
 
+def coqchk(pid, timeout=2400):
+    """independent checker on Props/<pid>.vo; returns (ok, axioms of the dependency cone, log tail)"""
+    with CoqLock():
+        r = subprocess.run(['bash', '-c', f'ulimit -s unlimited; timeout {timeout} coqchk -o -silent -Q . Aegean Aegean.Props.{pid}'],
+                           cwd=COQ, capture_output=True, text=True)
+    out = r.stdout + r.stderr
+    if r.returncode != 0 or 'CONTEXT SUMMARY' not in out:
+        return False, [], out[-1500:]
+    summ = out[out.index('CONTEXT SUMMARY'):]
+    m = re.search(r'\* Axioms:(.*?)\n\s*\n\* Constants', summ, re.S)
+    ax = []
+    if m and '<none>' not in m.group(1):
+        ax = [a.strip() for a in re.split(r'\s+', m.group(1).strip()) if a.strip()]
+    bad = [k for k in ('type-in-type', 'unsafe (co)fixpoints', 'positivity is assumed')
+           if not re.search(re.escape(k) + r':\s*<none>', summ)]
+    return (not bad), ax, summ[-1500:]
+
+
 def axioms_ok(ax):
+    """axioms outside the allow-list (names as printed by Print Assumptions or, fully qualified, by coqchk)"""
     bad = []
     for a in ax:
-        if a in ALLOWED_AXIOMS or a.startswith(PRIMITIVE_PREFIXES):
+        short = a[4:] if a.startswith('Coq.') else a
+        if any(short == x or short.endswith('.' + x) or x.endswith('.' + short) for x in ALLOWED_AXIOMS) \
+                or a.startswith(PRIMITIVE_PREFIXES) or any(('.' + p) in ('.' + short) for p in PRIMITIVE_PREFIXES):
             continue
         bad.append(a)
     return bad
